@@ -36,10 +36,12 @@ def handle (payload : List Sx) : Sx :=
     match ts.mapM tokOf with
     | none => .atom "bad-token"
     | some toks =>
-      match pList (toks.length + 5) 0 (skipEOL toks) with
-      | some (tree, rest) =>
+      -- fuel 3·|tokens| + 2 suffices for every token sequence (Props/C16Block.lean: list_terminates)
+      match pList (3 * (skipEOL toks).length + 2) 0 (skipEOL toks) with
+      | .ok tree rest =>
         if isEOF rest then .list (shapeTs tree) else .list [.atom "stopped-before-end", .atom (toString rest.length)]
-      | none => .list [.atom "reject"]
+      | .reject => .list [.atom "reject"]
+      | .fuel => .list [.atom "out-of-fuel"]
   | _ => .atom "bad-line"
 
 end Oracle.OffsideStream
